@@ -38,11 +38,13 @@ THEOREMS = [
     "PP.shown_rest_sorted",
     "PP.compact_single_line",
     "PP.compact_not_single_line_newline_in_key",
-    "PP.cli_total_partial",
-    "PP.cli_aborts_on_non_object",
-    "PP.cli_aborts_on_bad_task_level",
-    "PP.cli_total_false",
-    "PP.cli_run_partial",
+    "PP.cli_total",
+    "PP.cli_run_total",
+    "PP.cli_reports_non_object",
+    "PP.cli_reports_bad_task_level",
+    "PP.cli_aborts_on_pformat_recursion",
+    "PP.cli_total_needs_pformat",
+    "PP.format_error_cases",
     "PP.filter_identity",
     "PP.filter_skip",
     "PP.filter_skip_line",
@@ -55,13 +57,17 @@ TRUSTED = ["pprint.pformat, json.dumps/loads, str(), datetime.(utc)fromtimestamp
            "in-process execution of _main / filter.main with patched stdin/stdout/argv stands for the console scripts"]
 ASSUMPTIONS = ["messages are what json.loads returns (dict with distinct str keys, JSON values)",
                "compact_single_line: no key contains a newline and neither str(task_uuid), str(level element), the timestamp text nor json.dumps output does",
-               "cli_total_partial: the line is not JSON, or decodes to an object whose task_level is iterable and whose timestamp datetime accepts (or that lacks a required field)"]
-EXPLANATION = ("structure theorems over the transliterated formatters; totality of the CLI proved for well-typed input and refuted "
-               "with witnesses for JSON non-objects / wrongly typed required fields; model tied to the real readers output-for-output")
+               "cli_total: json.loads raises only ValueError/RecursionError; datetime and pprint.pformat raise nothing outside (TypeError, ValueError, "
+               "OverflowError, OSError) - the pformat part fails for values nested a few hundred deep (RecursionError): finding {line: deeply-nested-value}"]
+EXPLANATION = ("structure theorems over the transliterated formatters; totality of the CLI (tree at 36c5d35) proved for every input line under "
+               "hypotheses on the stdlib parameters only, with the witness that the pformat hypothesis is needed; model tied to the real readers "
+               "output-for-output")
 
 SKIP_FIELDS = {"timestamp", "task_uuid", "task_level", "message_type", "action_type", "action_status"}
 FIRST_FIELDS = ["action_type", "message_type", "action_status"]
 REQUIRED = ["task_level", "task_uuid", "timestamp"]
+DEEP = 450
+DEFAULT_RECURSION_LIMIT = sys.getrecursionlimit()
 TZ = "XVT-05:45"  # POSIX TZ string: fixed offset UTC+5:45, needs no tzdata
 TZ_OFFSET = _dt.timedelta(hours=5, minutes=45)
 
@@ -102,7 +108,7 @@ def gen_ts(rng):
         return rng.randint(0, 2 * 10 ** 9)
     if r < 0.85:
         return rng.randint(0, 10 ** 9) + rng.choice([0.5e-6, 1.5e-6, 0.999999, 0.9999995, 0.000001, 0.1234565])
-    return rng.choice([0, 0.0, 1.0000005, 86399.999999, 951782400.0, 1709164800.5, 4102444799.999999, 253402300799.0])
+    return rng.choice([0, 0.0, 1.0000005, 86399.999999, 951782400.0, 1709164800.5, 4102444799.999999, 32503680000.0])
 
 
 def gen_message(rng, newline_name=False):
@@ -146,7 +152,8 @@ def encode_line(rng, m):
     return s.encode("utf-8") + b"\n"
 
 
-# lines that the pinned tree cannot survive; each carries the structural key of its failure
+# lines that the original tree (891ac10) could not survive; each carries the structural key of its failure.  All but the last are
+# reported since 36c5d35; they stay here (alone and inside streams, on every seed) so that a regression is a VIOLATION.
 def bad_lines():
     base = {"task_uuid": "u", "task_level": [1], "timestamp": 1.0}
 
@@ -173,6 +180,9 @@ def bad_lines():
         (b'{"task_uuid":"u","task_level":[1],"timestamp":NaN}\n', {"field": "timestamp", "json_type": "number", "value": "nan"}),
         (b'{"task_uuid":"u","task_level":[1],"timestamp":1e999}\n', {"field": "timestamp", "json_type": "number", "value": "out-of-range"}),
         (b"[" * 100000 + b"\n", {"line": "deeply-nested-json"}),
+        # valid JSON, a genuine Eliot message, one value nested 450 deep: json.loads and json.dumps cope, pprint does not
+        (b'{"task_uuid":"u","task_level":[1],"timestamp":1.0,"x":' + b"[" * DEEP + b"]" * DEEP + b"}\n",
+         {"line": "deeply-nested-value", "format": "pretty"}),
     ]
 
 
@@ -247,7 +257,14 @@ class Table:
 
         for k, v in m.items():
             r = self.row(v)
-            r["pformat"] = text_j(pprint.pformat(v, width=40))
+            lim = sys.getrecursionlimit()
+            sys.setrecursionlimit(DEFAULT_RECURSION_LIMIT)   # pprint recurses in Python: what the real program would hit
+            try:
+                r["pformat"] = {"ok": text_j(pprint.pformat(v, width=40))}
+            except RecursionError:
+                r["pformat"] = {"raises": "RecursionError"}
+            finally:
+                sys.setrecursionlimit(lim)
             r["dumps"] = text_j(json.dumps(v, separators=(",", ":")))
             r["str"] = text_j(str(v))
         lv = m.get("task_level")
@@ -489,6 +506,16 @@ def json_type(v):
     return {type(None): "null", bool: "boolean", int: "number", float: "number", str: "string", list: "array", dict: "object"}[type(v)]
 
 
+def depth(v):
+    d, stack = 0, [(v, 1)]
+    while stack:
+        x, n = stack.pop()
+        if isinstance(x, (list, dict)):
+            d = max(d, n)
+            stack.extend((y, n + 1) for y in (x.values() if isinstance(x, dict) else x))
+    return d
+
+
 def abort_key(line, compact, local):
     """structural key of a line on which the program aborts; counterfactuals on the real program decide the field"""
     kind, v = loads_res(line)
@@ -498,6 +525,9 @@ def abort_key(line, compact, local):
         return {"line": "not-json"}
     if not isinstance(v, dict):
         return {"line_json_type": json_type(v)}
+    shallow = {k: (x if depth(x) < 100 else []) for k, x in v.items()}
+    if shallow != v and real_cli(json.dumps(shallow).encode() + b"\n", compact, local)["abort"] is None:
+        return {"line": "deeply-nested-value", "format": "compact" if compact else "pretty"}
     for f, good in (("task_level", [1]), ("timestamp", 1.0), ("task_uuid", "u")):
         if f in v:
             v2 = dict(v)
@@ -654,6 +684,15 @@ def gen_cases(ctx):
 
 
 def model_case(c):
+    old = sys.getrecursionlimit()
+    sys.setrecursionlimit(20000)   # only for the harness's own recursive encoders; the real code runs under the default limit
+    try:
+        return _model_case(c)
+    finally:
+        sys.setrecursionlimit(old)
+
+
+def _model_case(c):
     table = Table()
     if c["kind"] == "format":
         table.add_message(c["msg"])
